@@ -67,10 +67,7 @@ pub open spec fn bind_args(base: Map<String, String>, args: Seq<String>, n: int)
 {
     if n <= 0 { base } else { bind_args(base, args, n - 1).insert(skey(crate::dec_spec(n)), args[n - 1]) }
 }
-pub open spec fn ctx_key() -> String { skey(concat_spec("duckscriptsdk::runtime"@, "line_context_name"@)) }
-/// the current line-context name (types/scope.rs::get_line_context_name); abstract here
-pub uninterp spec fn ctx_name_of(ctx_state: Map<String, StateValue>) -> Seq<char>;
-pub open spec fn ctx_name(state: Map<String, StateValue>) -> Seq<char> { ctx_name_of(sub_of(state, ctx_key())) }
+pub use crate::duckscriptsdk::scspec::{ctx_key, ctx_name_of, ctx_name};
 /// a change confined to top-level key k leaves every other top-level entry as it was
 pub proof fn lemma_other_key(s0: Map<String, StateValue>, s1: Map<String, StateValue>, k: String, j: String)
     requires s1.remove(k) =~= s0.remove(k), j != k
